@@ -31,6 +31,15 @@ import re as _re
 
 
 # ---------------------------------------------------------------- projections
+PROJ_BY_NAME = {}
+
+
+def _named(name, f):
+    f._name = name
+    PROJ_BY_NAME[name] = f
+    return f
+
+
 def proj_obs(kind):
     """obs mode: keep, per call, only what the property speaks of"""
     def f(line):
@@ -45,7 +54,7 @@ def proj_obs(kind):
             elif kind == "wake":
                 out.append(("P" if first == "P" else ".") + "".join(" " + t for t in toks[1:] if t.startswith("w")))
         return " ; ".join(out)
-    return f
+    return _named("obs:" + kind, f)
 
 
 def _diff_shape(d):
@@ -90,7 +99,7 @@ def proj_adapt(kind):
             b = b.split(" ok:samediffs=")[0]
             return one(a) + " || " + one(b)
         return one(line)
-    return f
+    return _named("adapt:" + kind, f)
 
 
 def proj_chain_reg(line):
@@ -119,6 +128,14 @@ def proj_ovec_plain(line):
         out.append("." if first[:2] in ("R:", "P", "N") or first in ("P", "N") or first.startswith(("R:", "#")) else first)
     return " ; ".join(out)
 
+
+for _f in (proj_chain_reg, proj_none, proj_ovec_plain):
+    _named(_f.__name__, _f)
+# make sure the parameterised projections used by the streams are registered too
+for _k in ("counts", "end", "wake"):
+    proj_obs(_k)
+for _k in ("bound", "trace", "shape"):
+    proj_adapt(_k)
 
 # ---------------------------------------------------------------- C18
 def c18_streams(tier, rng):
